@@ -29,12 +29,16 @@ import (
 type c11Scenario struct {
 	nsFloodScenario
 	Announcers []int `json:"announcers,omitempty"`
+	QuietUp    bool  `json:"quiet_up,omitempty"` // late links come up only once the initial mesh is quiet (joiner_test.go)
 }
 
 func (sc c11Scenario) String() string {
 	s := sc.nsFloodScenario.String()
 	if sc.Announcers != nil {
 		s += fmt.Sprintf(" announcers=%v", sc.Announcers)
+	}
+	if sc.QuietUp {
+		s += " quiet-up"
 	}
 	return s
 }
@@ -52,6 +56,16 @@ func c11Check(r *vmc.Result, sc c11Scenario) func(nt *nsNet, hist []string) {
 		if expired {
 			suffix = "/after-cache-expiry"
 		}
+		// a link that came up during the history (both ends replayed their full table): part of the
+		// fingerprint, derived from the enumerated history, so that a finding of the late-joiner family
+		// cannot hide a violation in a static mesh
+		linkUp := ""
+		for _, ev := range hist {
+			if ev[0] == 'c' {
+				linkUp = "/after-link-up"
+			}
+		}
+		suffix += linkUp
 		type k struct {
 			from, to int
 			origin   identity.AgentID
@@ -73,21 +87,33 @@ func c11Check(r *vmc.Result, sc c11Scenario) func(nt *nsNet, hist []string) {
 		}
 		for kk, c := range perLink {
 			if c > 1 {
+				suffix := suffix
+				if linkUp != "" && nt.ids[kk.from] == kk.origin {
+					// the agent that sent it twice is the origin itself: its own routes came back to it in a
+					// neighbour's full-table replay (derived from the log, not from the code under test)
+					suffix += "/own-routes-came-back-to-origin"
+				}
 				r.Violate("C11/forwarded-more-than-once"+suffix, fmt.Sprintf("%s: agent n%d sent announcement (origin %s, seq %d) %d times to neighbour n%d (history %v)", sc, kk.from, nt.name(kk.origin), kk.seq, c, kk.to, hist), rep())
 			}
 		}
 		for a, c := range total {
-			if c > 2*len(sc.Edges) {
+			if c > 2*(len(sc.Edges)+len(sc.LateEdges)) {
 				r.Violate("C11/message-bound-exceeded"+suffix, fmt.Sprintf("%s: announcement (origin %s, seq %d) produced %d frames on %d links", sc, nt.name(a.origin), a.seq, c, len(sc.Edges)), rep())
 			}
 			r.Nontrivial(fmt.Sprintf("ann|%s|frames=%d", sc.String(), c))
 		}
 		for i := 0; i < nt.n; i++ {
 			for _, rt := range nt.routes(i) {
-				seen := map[identity.AgentID]bool{nt.ids[i]: true}
+				// the two ways a stored path can loop get their own fingerprints (per table, and per
+				// whether a link came up during the history, i.e. full-table replays were involved)
+				seen := map[identity.AgentID]bool{}
 				for _, hop := range rt.Path {
+					if hop == nt.ids[i] {
+						r.Violate("C11/stored-path-loops/passes-through-holder/"+rt.Kind+linkUp, fmt.Sprintf("%s: agent n%d stores %s route %s (origin %s, seq %d) with path %s that passes through n%d itself (history %v)", sc, i, rt.Kind, rt.Key, nt.name(rt.Origin), rt.Seq, nt.pathStr(rt.Path), i, hist), rep())
+						break
+					}
 					if seen[hop] {
-						r.Violate("C11/stored-path-loops", fmt.Sprintf("%s: agent n%d stores %s route %s with path %s", sc, i, rt.Kind, rt.Key, nt.pathStr(rt.Path)), rep())
+						r.Violate("C11/stored-path-loops/revisits-agent/"+rt.Kind+linkUp, fmt.Sprintf("%s: agent n%d stores %s route %s (origin %s, seq %d) with path %s that revisits %s (history %v)", sc, i, rt.Kind, rt.Key, nt.name(rt.Origin), rt.Seq, nt.pathStr(rt.Path), nt.name(hop), hist), rep())
 						break
 					}
 					seen[hop] = true
@@ -104,6 +130,18 @@ func TestVerif_C11(t *testing.T) {
 	r.Assume("map iteration order fixed to sorted order by the maprange rewriter")
 	var rp c11Scenario
 	var srp c11SchedReplay
+	var trp c11TabReplay
+	if r.ReplayInto(&trp) && trp.TableGrid {
+		if err := c11TabRun(r, trp.Kind, trp.Calls); err != nil {
+			t.Fatal(err)
+		}
+		r.Add("states", 1)
+		r.Add("transitions", 1)
+		if err := r.Finish(); err != nil {
+			t.Fatal(err)
+		}
+		return
+	}
 	if r.ReplayInto(&srp) && srp.Sched {
 		c11SchedRun(r, srp.Threads, srp.Extra, vmc.NewReplayChooser(srp.Choices))
 		r.Add("states", 1)
@@ -159,8 +197,16 @@ func TestVerif_C11(t *testing.T) {
 			scs = append(scs, sc)
 		}
 	}
+	for _, sc := range c11JoinerScenarios(r) {
+		if sc.QuietUp {
+			scs = append(scs, sc)
+		} else {
+			big = append(big, sc)
+		}
+	}
 	scs = append(scs, big...)
 	c11Sched(r)
+	c11TableGrid(r)
 	for si, sc := range scs {
 		if si%r.Shards != r.Shard {
 			continue
